@@ -18,6 +18,7 @@ ASSUMPTIONS = [
 ]
 SUBS = [
     dict(name="drbg", fork=True, quick=dict(cases=300, shards=13), thorough=dict(cases=2500, shards=13)),
+    dict(name="giant", fork=True, thorough=dict(cases=1, shards=1)),
     dict(name="osread", quick=dict(cases=150000, shards=3), thorough=dict(cases=1500000, shards=3)),
 ]
 
@@ -39,7 +40,7 @@ def build(B):
     lib2 = B.build_lib("asan", only=LIBSRC | {"entropy.c"})
     shim2 = B.compile_c(os.path.join(HERE, "shim.c"))
     b2 = B.link(os.path.join(B.BUILD, "bin", "C11-osread"), [core, shim2] + list(lib2.values()), libs=libs, wraps=wraps)
-    return {"default": b1, "drbg": b1, "osread": b2}
+    return {"default": b1, "drbg": b1, "giant": b1, "osread": b2}
 
 MANIFEST = dict(
     engine="rapidcheck",
